@@ -286,6 +286,7 @@ func counterRule(c *Ctx) {
 	if d := c.decl(R, cdxUnser); d != nil {
 		okLocal := false
 		var ctrObj types.Object
+		oneCounter := true
 		for _, cs := range callsIn(d.pkg, d.fd.Body) {
 			if cs.callee.Pkg() == nil || !strings.HasSuffix(cs.callee.Pkg().Path(), "unserializers") {
 				continue
@@ -295,11 +296,52 @@ func counterRule(c *Ctx) {
 					if o := objOf(d.pkg, u.X); o != nil && isLocal(d, o) {
 						if b, ok := o.Type().Underlying().(*types.Basic); ok && b.Info()&types.IsInteger != 0 {
 							okLocal = true
+							if ctrObj != nil && ctrObj != o {
+								oneCounter = false
+							}
 							ctrObj = o
 						}
 					}
 				}
 			}
+		}
+		// one counter for the whole parse, starting from a constant and only advanced by the
+		// conversion helpers: a second counter, or one re-derived from what was parsed so far
+		// (len of the node list), repeats or skips numbers when nodes were merged
+		constInit, reassigned := false, false
+		if ctrObj != nil {
+			ast.Inspect(d.fd.Body, func(n ast.Node) bool {
+				switch s := n.(type) {
+				case *ast.AssignStmt:
+					for i, l := range s.Lhs {
+						if objOf(d.pkg, l) != ctrObj {
+							continue
+						}
+						if s.Tok == token.DEFINE && i < len(s.Rhs) {
+							if _, isC := constOf(d.pkg, s.Rhs[i]); isC {
+								constInit = true
+								continue
+							}
+						}
+						reassigned = true
+					}
+				case *ast.ValueSpec:
+					for i, nm := range s.Names {
+						if d.pkg.TypesInfo.Defs[nm] == ctrObj {
+							if i >= len(s.Values) {
+								constInit = true
+							} else if _, isC := constOf(d.pkg, s.Values[i]); isC {
+								constInit = true
+							} else {
+								reassigned = true
+							}
+						}
+					}
+				}
+				return true
+			})
+			c.check(oneCounter && constInit && !reassigned, R, cdxUnser+"#single-counter", c.P.Pos(d.fd.Pos()), "one counter per parse, initialised with a constant",
+				fmt.Sprintf("the component counter is not a single local initialised with a constant (one counter: %v, constant start: %v, re-derived: %v): numbers handed to components can repeat, so two id-less components get the same generated identifier", oneCounter, constInit, reassigned))
 		}
 		// never a package-level variable or a receiver field
 		c.check(okLocal, R, cdxUnser+"#counter-per-parse", c.P.Pos(d.fd.Pos()), "the counter is a local of Unserialize passed by address",
